@@ -23,8 +23,9 @@ engine), `cutLines_never_silent` / `readAndCutLines_never_silent` (buffered `-l`
 `fwd_never_silent` (`-l` one line at a time — proved on the model, its refinement theorem being
 about resolvable requests only), `readAndCutLines_never_silent_status` (whichever `-l` algorithm),
 `readAndCutBytes_never_silent` (`-b`).  The fast lane (`readAndCutFast_never_silent`) and `-M`
-(`stream_never_silent`) are in `Tuc.Props.C13RunsFast` and `Tuc.Props.C13RunsStream`: C02 and C03
-cannot be imported into one file (both declare `Tuc.mem_boundsOnly`).
+(`stream_never_silent`) are in `Tuc.Props.C13RunsFast` and `Tuc.Props.C13RunsStream`: kept apart
+for historical reasons (C02 and C03 once declared the same name; `Tuc.AllProps` now imports every
+property file together).
 -/
 namespace Tuc
 open Tuc.Spec
